@@ -50,7 +50,11 @@ def gcc_agrees(m, sc, i):
         return True
     # every attributed code item's marker token must survive, every other must not
     exp = m.expected_lines(res["attr"])
+    # a byte-identical copy carries the same marker tokens as its original: both are left out of the marker test
+    twins = {f for f, v in sc["files"].items() if v.get("copyof")} | {v["copyof"] for v in sc["files"].values() if v.get("copyof")}
     for fid in m.paths:
+        if fid in twins:
+            continue
         items = sc["files"][fid]["items"]
         for idx, it in enumerate(items):
             if it["k"] != "code":
@@ -188,6 +192,8 @@ def run(ctx):
                                 16, "GenScen_c04h", timeout=3000)
     cases += runner.sharded_tlc(ctx, "GenScen", CFG.format(profile="c04g", shard="@SHARD@", nshards="@NSHARDS@"),
                                 16, "GenScen_c04g", timeout=3000)
+    cases += runner.sharded_tlc(ctx, "GenScen", CFG.format(profile="c04s", shard="@SHARD@", nshards="@NSHARDS@"),
+                                16, "GenScen_c04s", timeout=3000)
     if not q:
         cases += runner.sharded_tlc(ctx, "GenScen", CFG.format(profile="c04t", shard="@SHARD@", nshards="@NSHARDS@"),
                                     16, "GenScen_c04t", timeout=3000, simulate="num=4000", depth=30, seed=ctx.seed + 7)
@@ -203,7 +209,8 @@ def run(ctx):
         "to 4 header slots (same name beside the includer, in a -I dir and in a -isystem dir) x every main file of <= 2 "
         "include/undef statements (quote and angle) + probe block x 4 orders of -I/-isystem x X defined or not; profile "
         "c04h (computed include whose operand comes from -DHDR, two TUs of one platform) and profile c04g (guarded / "
-        "#pragma once / plain headers included repeatedly with the guard macros undefined in between), both exhaustively; plus "
+        "#pragma once / plain headers included repeatedly with the guard macros undefined in between) and profile c04s "
+        "(include names with directory components: sub/k.h, and tosub/../j.h through a directory link), all exhaustively; plus "
         "TLC-simulated scenarios from the rich profile (7 slots incl. a directory outside the root, 10 bodies, computed "
         "includes, -include, 2 mains, 3 TUs, 2 platforms). evaluations = well-formed scenarios replayed; non-trivial = "
         "the same header name exists in more than one directory")
